@@ -155,9 +155,6 @@ def judge_gradient(obs, spec, cfg, gres, fvals, pvals, tag, judge_merged_values=
             obs.violation("gradients_missing", tag=tag, failed=failed_g, rmin=int(cfg.realizations.realization_min_success), filters=spec.get("filters"),
                           estimators=spec.get("estimators"))
         return False
-    if failed_g.all():
-        obs.count("all_failed")
-        return False
     G = np.vstack([np.asarray(gres.gradients.objectives), np.asarray(gres.gradients.constraints)] if n_con else
                   [np.asarray(gres.gradients.objectives)])
     # fixed entries: exactly zero, always (also when the premise fails)
@@ -167,6 +164,9 @@ def judge_gradient(obs, spec, cfg, gres, fvals, pvals, tag, judge_merged_values=
         if fixed.size and not np.all(fixed == 0.0):
             obs.violation("fixed_variable_gradient_nonzero", tag=tag, gradient=arr, mask=mask)
             return False
+    if failed_g.all():
+        obs.count("all_failed")          # (realization_min_success = 0: NaN gradients, the fixed entries judged above all the same)
+        return False
     if np.any(np.isnan(G)):
         obs.count("nan_gradient_trivial")
         # NaN gradients arise legitimately only when no positive weight survives; judged below through 'contributing'
